@@ -8,12 +8,16 @@
    n_prime : prime n  (premise M2 of DESIGN.md), G_nonzero : G <> O (for totality of signing) and, for recovery,
    lifts : lift_laws ..  (abscissae are below p; points_for_x returns the two points of a reduced abscissa, even
    ordinate first).  These are hypotheses about the curve, not about
-   pycoin; Proofs/EcdsaInstP.v proves them by computation for four toy curves (Examples at the end), for
-   secp256k1/secp256r1 they stay premises.  `gen_k` (the nonce callback of sign_with_recid) is arbitrary except
+   pycoin; Proofs/EcdsaInstP.v proves them by computation for four toy curves (Examples at the end).  For
+   secp256k1/secp256r1: `prime n` (and `prime p`) is PROVED for the regenerated constants (C01_production_moduli_prime:
+   kernel-checked Pocklington certificates, Proofs/Pocklington.v + CurvePrimes.v + CurvePrimesC01.v); the two records
+   `laws` / `lifts` and G <> O are proved in Props/C01compose.v from C02's model of pycoin's arithmetic, where for the shipped
+   secp256k1 / secp256r1 generators NO mathematical premise is left (associativity M4 and n*G = O are theorems too): see
+   C01c_secp256k1_*_unconditional there.  `gen_k` (the nonce callback of sign_with_recid) is arbitrary except
    where RFC 6979 is named.  Python exceptions are values: Ret v / Raise e / OutOfFuel. *)
 From Coq Require Import ZArith List Znumtheory.
 From PV Require Import Base.Bytes Base.Outcome Gen.GenCurvesC01 Model.Ecdsa Model.Rfc6979 Model.EcdsaInst
-  Spec.EcdsaSpec Spec.Rfc6979Spec Proofs.EcdsaP Proofs.Rfc6979P Proofs.EcdsaInstP Proofs.C01P.
+  Spec.EcdsaSpec Spec.Rfc6979Spec Proofs.EcdsaP Proofs.Rfc6979P Proofs.EcdsaInstP Proofs.C01P Proofs.CurvePrimesC01.
 Import ListNotations.
 Local Open Scope Z_scope.
 
@@ -186,6 +190,11 @@ Theorem C01_production_curve_constants :
   gen_secp256k1_p mod 4 = 3 /\ gen_secp256r1_p mod 4 = 3 /\ gen_rfc6979_hash_size = 32%nat.
 Proof. exact production_constants. Qed.
 
+(* premise M2 (`n_prime`) of the theorems above, and M1, hold for the regenerated production constants: no longer assumed *)
+Theorem C01_production_moduli_prime :
+  prime gen_secp256k1_p /\ prime gen_secp256k1_n /\ prime gen_secp256r1_p /\ prime gen_secp256r1_n.
+Proof. exact production_moduli_prime. Qed.
+
 (* hence on secp256k1 the value that enters the nonce is z mod n *)
 Theorem C01_secp256k1_reduced_hash : forall z, 0 <= z < 2 ^ 256 ->
   reduced_hash gen_rfc6979_hash_size gen_secp256k1_n z = z mod gen_secp256k1_n.
@@ -240,6 +249,7 @@ Print Assumptions C01_sign_loop_total.
 Print Assumptions C01_sign_total.
 Print Assumptions C01_nonce_input_injective.
 Print Assumptions C01_production_curve_constants.
+Print Assumptions C01_production_moduli_prime.
 Print Assumptions C01_secp256k1_reduced_hash.
 Print Assumptions C01_regression_sign_wraps.
 Print Assumptions C01_regression_recover_r_above_p.
